@@ -164,6 +164,18 @@ CHECKS = {
         text='Every sample / weight vector / alpha / rescaling / dtype combination inside the stated alphabets runs on the real weighted_sample_quantile (also through Sample.sample_quantiles and the 95% intervals), weighted_var, compute_ess and normalize_weights; the quantile definition (element of the sample, W(<=q) >= alpha, W(<q) <= alpha), monotonicity and scale invariance are decided exactly, with ties, zeros, unsorted input, single elements and alpha on cumulative boundaries as alphabet symbols. GM pdf/logpdf are compared on dims 1..3 x 1..3 components x covariance forms x weight vectors x argument shapes; for rvs the complete answer tree ((R+1)^size executions per configuration) is executed and each execution must return exactly size rows drawn from the accepted proposals.',
         note="Bounds: n <= 4/5, weights <= 3, d <= 3, k <= 3, size <= 4/6, R <= 3/6; all-zero weights excluded. Tolerances 1e-11 (variance/ESS) and 1e-9 (density) on a fixed well-conditioned grid. Trusted: exact-rational oracles, numpy/scipy linear algebra, horizon 'forced accept after R rounds'.",
         design_ref='4 C13'),
+    'C12': dict(
+        level='model_checking',
+        technique='exhaustive product enumeration of (summary layout, observed form, metric with keywords, batch size, dtype) over real Distance nodes with every row of grid**m in a batch, compared row by row with scipy.spatial.distance.<metric>; for adaptive scales all data sets x all compositions into add_data calls plus explicit-state BFS over round/abort/reset histories of a real AdaptiveDistance node with canonical state merging, cross-checked against un-merged sequences',
+        text='Each configuration builds a real model and evaluates the distance through model.generate(with_values=...); output shape (bs,) and value are decided per row against an independent scipy call for scalar, (bs,1) and (bs,2) summaries, bs=1 and the keywords p, w, V, VI. For the adaptive distance every split of every small data set must give np.std after each call regardless of node prehistory; every reachable node state (<= 3-4 rounds) is expanded with every round/abort/reset operation, checking w = 1/scale, one more output column, earlier columns bit-identical, newest column equal to the scaled Euclidean distance and a clean start of the next round. A small sampler-level confirmation (Rejection, AdaptiveDistanceSMC) is included.',
+        note='Trusted: scipy row functions and np.std as references; tolerances 1e-12 (cdist vs row function on small integers) and 1e-10 (Welford vs two-pass). Data sets with a constant column excluded as whole-round data; empty-round updates excluded; bounds n <= 5/7 rows, value grids of 2-4 symbols.',
+        design_ref='4 C12'),
+    'C18': dict(
+        level='exploration',
+        technique='exhaustive product enumeration of (arity, constants mask, dtype, input-kind tuple, batch size, given/inferred, return kind, kwargs) on the real vectorised callable against a literal per-row loop, plus exhaustive enumeration of a command-template grammar executed in real subprocesses, directly and inside BatchHandler model runs',
+        text='Every input combination inside the bound is called on the real elfi.tools.vectorize result with earlier calls as the history of later ones on one shared callable; decided per call: the arguments the operation saw, pass-through of constants and kwargs, the meta row index, batch length from the inputs or from batch_size, rejection of mismatching lengths, stacking by dtype (incl. dtype=False). Every template of the token grammar runs through external_operation; parsed type and values, KeyError on each missing key, seed determinism under equal generator state and pairwise different seeds per batch row are decided, directly, under vectorize and in model runs (batch sizes 1-3, thorough 1-5).',
+        note='Trusted: numpy RandomState stream for the twin model; /bin/sh echo and printf. Reading: row input = ndarray with ndim >= 1 not in the mask. Bounded to arity <= 4, batch size <= 5, templates of <= 7 tokens; the exact seed derivation is reported, not judged; row call order unconstrained.',
+        design_ref='4 C18'),
     'C15': dict(
         level='model_checking',
         technique='explicit-state BFS to closure over the real get_sub_seed cache states (all index requests in every '
